@@ -2,36 +2,6 @@
    theorems are necessary / that the unchanged code violates the property on these inputs (known findings). *)
 Require Import SF.Prelude SF.PySlice SF.Dtype SF.Value SF.Blocks SF.UpdateSpec SF.BlocksUpdate SF.UpdateFrame.
 
-Definition c08_three : tb val :=
-  [mk_block (DInt true 8) true [[VInt 1; VInt 2]]; mk_block (DInt true 8) true [[VInt 3; VInt 4]];
-   mk_block (DInt true 8) true [[VInt 5; VInt 6]]].
-
-(* finding C08-negative-positions-in-list-key: f.mask.iloc[:, [-1, 0]] on three 1-D blocks marks only the last column
-   (sorted([-1, 0]) = [-1, 0] is not positional order, so the target for block 0 is never consumed) *)
-Theorem C08_mask_negative_list_refuted :
-  exists (t : tb val) (k : ckey) (on off : list val),
-    wf_tb t /\ t <> [] /\ walk_dom k = false /\
-    res_map flatten (M_mask_blocks t k on off) <> S_mask_columns (flatten t) k on off.
-Proof.
-  exists c08_three, (CList [-1; 0]), [VBool true; VBool true], [VBool false; VBool false].
-  split; [repeat constructor; cbn; try lia; intros; reflexivity|].
-  split; [discriminate|]. split; [reflexivity|]. vm_compute. discriminate.
-Qed.
-Print Assumptions C08_mask_negative_list_refuted.
-
-(* same key for drop: the walk yields 2 columns where 1 must remain (the Frame constructor then raises ErrorInitFrame) *)
-Theorem C08_drop_negative_list_refuted :
-  exists (t : tb val) (k : ckey),
-    wf_tb t /\ t <> [] /\ walk_dom k = false /\
-    res_map flatten (M_drop_blocks t (Some k) (fun c => c)) <>
-    res_map (map (fun c => (fst c, snd c))) (S_drop_columns (flatten t) (Some k)).
-Proof.
-  exists c08_three, (CList [-1; 0]).
-  split; [repeat constructor; cbn; try lia; intros; reflexivity|].
-  split; [discriminate|]. split; [reflexivity|]. vm_compute. discriminate.
-Qed.
-Print Assumptions C08_drop_negative_list_refuted.
-
 Definition c08_frame : mframe :=
   mk_mframe [VStr "x"; VStr "y"] [VStr "a"; VStr "b"]
     [mk_block (DInt true 8) false [[VInt 1; VInt 2]; [VInt 3; VInt 4]]] (VStr "nm").
@@ -57,15 +27,3 @@ Proof.
   eexists. split; [vm_compute; reflexivity|]. reflexivity.
 Qed.
 Print Assumptions C08_mask_zero_columns_refuted.
-
-(* finding C08-assign-iloc-boolean-array-column-key: f.assign.iloc[:, np.array([True, False])](0) -- key_to_ascending_key
-   np.sort()s the Boolean array, so the LAST column is assigned; the specification addresses the first *)
-Theorem C08_assign_boolean_array_refuted :
-  exists (f : mframe) (ck : ckey) (out : oframe * layout),
-    M_frame_assign_unit f None (Some ck) true true false (AElem (VInt 0)) (DInt true 8) (fun a _ => a) = Ok out /\
-    S_frame_assign_ok (mf_oframe f) None (Some ck) (AElem (VInt 0)) VNaN (fst out) = false /\
-    of_cols (fst out) = [(DInt true 8, [VInt 1; VInt 2]); (DInt true 8, [VInt 0; VInt 0])].
-Proof.
-  exists c08_frame, (CMask [true; false]). eexists. split; [vm_compute; reflexivity|]. split; vm_compute; reflexivity.
-Qed.
-Print Assumptions C08_assign_boolean_array_refuted.
